@@ -692,6 +692,11 @@ func (i *importer) importMuxSignal(dbcMuxSig *dbc.Signal, dbcMsgID uint32, muxed
 		if ok {
 			for _, valRange := range dbcExtMux.Ranges {
 				for j := valRange.From; j <= valRange.To; j++ {
+					// stop at the first group id the multiplexer cannot hold,
+					// a range up to the max uint32 would never end otherwise
+					if int(j) >= muxSig.groupCount {
+						return nil, i.errorf(valRange, &GroupIDError{GroupID: int(j), Err: ErrOutOfBounds})
+					}
 					groupIDs = append(groupIDs, int(j))
 				}
 			}
